@@ -6,3 +6,4 @@ PROPS=${*:-$(ls harness/props/c[0-9][0-9].py | sed 's/.*\/c\([0-9]*\)\.py/C\1/')
 for p in $PROPS; do
   /usr/bin/time -f "%es" ./check $p --tier $TIER 2>&1 | grep -E "^(VIOLATION|KNOWN-FINDING|C[0-9]+ (quick|thorough):|INFRASTRUCTURE|Traceback|[0-9.]+s$)" | cut -c1-400
 done
+/venv/bin/python tools/validate_evidence.py
